@@ -1,6 +1,5 @@
 PROP = dict(
     id="C03",
-    disabled=True,
     engines=["c03"],
     go_tags=["c03", "c04"],   # c04: the in-process mesh used by the `tunnel` ops lives in eng_c04.go
     timeout=600,
